@@ -7,7 +7,7 @@ import subprocess
 from .. import core
 from ..core import hexb
 
-MODULES = ["Robsd.Props.C08", "Robsd.Props.C08Complete", "Robsd.Props.C08Lex"]
+MODULES = ["Robsd.Props.C08", "Robsd.Props.C08Complete", "Robsd.Props.C08Lex", "Robsd.Props.C08Steps"]
 GENS = ["Consts", "Grammar"]
 MODES = ["robsd", "robsd-cross", "robsd-ports", "robsd-regress", "canvas"]
 
@@ -142,6 +142,24 @@ def gen_conf(rng, mode, root):
         for i in range(rng.choice([1, 2, 3, 16, 17])):
             c.add("step", b"step " + q(b"s%d" % i) + rng.choice([b" command " + lst([b"echo", b"%d" % i]), b" parallel command " + lst([b"true"]),
                                                                    b" command " + lst([b"x"]) + b" parallel"]), rep=True)
+    # a directory value that refers to another keyword: interpolated when the statement is parsed (with
+    # what is known by then) and again when ${bsd-srcdir} is asked for (with the final configuration)
+    if mode in ("robsd", "robsd-cross", "robsd-regress") and rng.random() < 0.4:
+        c.entries = [e for e in c.entries if e["kw"] not in ("bsd-srcdir", "stat-interval")]
+        c.expect.pop("stat-interval", None)
+        k = 10
+        if rng.random() < 0.7:
+            k = 7
+            c.add("stat-interval", b"stat-interval 7", {"stat-interval": b"7"})
+        c.add("bsd-srcdir", b"bsd-srcdir " + q(sub(b"src${stat-interval}")), {"bsd-srcdir": sub(b"src%d" % k)})
+        if mode == "robsd" and rng.random() < 0.6:
+            c.entries = [e for e in c.entries if e["kw"] not in ("bsd-objdir", "kernel")]
+            c.expect.pop("kernel", None)
+            kn = b"GENERIC.MP"
+            if rng.random() < 0.7:
+                kn = b"GENERIC"
+                c.add("kernel", b"kernel " + q(kn), {"kernel": kn})
+            c.add("bsd-objdir", b"bsd-objdir " + q(sub(b"obj${kernel}")), {"bsd-objdir": sub(b"obj") + kn})
     rng.shuffle(c.entries)
     if mode == "robsd-regress":
         c.expect["regress"] = b" ".join(re.match(rb'regress "([^"]*)"', e["text"]).group(1) for e in c.entries if e["kw"] == "regress")
@@ -240,7 +258,7 @@ def run(ctx):
     exe = os.path.join(d, "robsd-config")
     root = os.path.join(ctx.scratch, "c08")
     shutil.rmtree(root, ignore_errors=True)
-    for sub in ("dest", "src", "xsrc", "obj", "xobj", "cross", "chroot"):
+    for sub in ("dest", "src", "xsrc", "obj", "xobj", "cross", "chroot", "src7", "src10", "objGENERIC", "objGENERIC.MP"):
         os.makedirs(os.path.join(root, sub))
     open(os.path.join(root, "file"), "w").write("x")
     for f in ("a.diff", "b.diff"):
@@ -258,7 +276,7 @@ def run(ctx):
         raise core.BuildError("robsd-config probe failed: " + err.decode(errors="replace")[-300:])
     arch, machine, inet, inet6 = out.split(b"\n")[:4]
     r = root.encode()
-    envd = dict(dirs=[r] + [r + b"/" + x for x in (b"dest", b"src", b"xsrc", b"obj", b"xobj", b"cross", b"chroot")], users=[b"root"],
+    envd = dict(dirs=[r] + [r + b"/" + x for x in (b"dest", b"src", b"xsrc", b"obj", b"xobj", b"cross", b"chroot", b"src7", b"src10", b"objGENERIC", b"objGENERIC.MP")], users=[b"root"],
                 glob={r + b"/*.diff": [r + b"/a.diff", r + b"/b.diff"], r + b"/*.nomatch": []}, arch=arch, machine=machine, exec=b"/exec/dir", ncpu=6, lock=None, inet=inet, inet6=inet6)
     kinds = {}
     distinct = set()
